@@ -105,6 +105,10 @@ def json_positions(fmt, doc):
                     if not img.get("unified"):
                         yield ("images[%s][%s][%d].additional_variants:nonunified" % (v, a, i), base + ["additional_variants"], None,
                                [["Client"]])
+                    copies = sum(1 for vv in pay["images"].values() for lst in vv.values() for other in lst if other["path"] == img["path"])
+                    if copies > 1:
+                        yield ("images[%s][%s][%d].checksums:conflicting-copy" % (v, a, i), base + ["checksums"], None,
+                               [{"sha256": "f" * 64}])
 
 
 def json_required(fmt, doc):
@@ -398,7 +402,7 @@ def describe(tier):
     return {
         "rule": "for each base document (%s): (a) every validated value position (compose/release/base-product fields, every "
                 "variant of the table incl. layered-product releases, misaligned UID, child arch outside the parent's, every image "
-                "attribute in every cell, additional_variants on a non-unified image; treeinfo: versions, is_layered, tree arch/"
+                "attribute in every cell, additional_variants on a non-unified image, different checksums on one copy of an image filed in several cells; treeinfo: versions, is_layered, tree arch/"
                 "timestamp, variant id/type/uid, image and stage2 and checksum paths, unreferenced image platform, media numbers; "
                 "discinfo lines) x every value of the corruption alphabet; (b) header type swapped for each of the 6 other formats at "
                 "versions 1.1/1.2/2.0 (1.0: recorded only); (c) 7 mangled version strings; (d) every required key/section deleted.  "
